@@ -171,7 +171,11 @@ type errorExtra struct {
 // When debug is false, stack traces and file paths are omitted to avoid leaking
 // implementation details to clients.
 func buildErrorExtra(err error, debug bool) string {
-	errType := fmt.Sprintf("%T", err)
+	// Anything that is not a typed error below is a general server-side
+	// failure. The wire carries cross-language class names only — never
+	// Go's %T ("*errors.errorString", "*fmt.wrapError"), which no client can
+	// map and which changes with the way the handler built its error.
+	errType := "RuntimeError"
 
 	// Prefer the wire-stable class name for typed errors.
 	switch e := err.(type) {
